@@ -190,6 +190,16 @@ def routes(job):
             bad("route-lookup/wrong-tile", "lookup at the tile's centre returned %r" % (tuple(pt.pos),), cfg)
         elif tg.angdist(tvec(pt), vs).max() > 1e-12 or bool(pt.increasing) != bool(s.increasing):
             bad("routes-disagree/lookup-vs-single", "corners differ by %.3g rad" % tg.angdist(tvec(pt), vs).max(), cfg)
+        # the pixel lookup hands back a tile as well: the same one
+        if n <= 8 and abs(float(lat)) < np.pi / 2 - np.radians(1.5):
+            try:
+                tp, _px, _py = toast.toast_pixel_for_point(n, float(lat), float(lon), coordsys=cs)
+                if tuple(tp.pos) != (n, x, y):
+                    bad("route-pixel-lookup/wrong-tile", "toast_pixel_for_point at the tile's centre returned tile %r" % (tuple(tp.pos),), cfg)
+                elif tg.angdist(tvec(tp), vs).max() > 1e-12 or bool(tp.increasing) != bool(s.increasing):
+                    bad("routes-disagree/pixel-lookup-vs-single", "corners differ by %.3g rad" % tg.angdist(tvec(tp), vs).max(), cfg)
+            except Exception as e:
+                bad("route-pixel-lookup/raises:%s" % type(e).__name__, repr(e), cfg)
         # ... and at points 4% of the way from each corner towards the centre (well inside the tile, but
         # close enough to its edges that a size-independent tolerance would misplace them in deep tiles)
         if n >= 8:
